@@ -5,8 +5,8 @@ sys.path.insert(0, '/verif')
 from jobs import JOBS, PROPS
 
 NA = {
-    'C08': 'CompressedPGMIndex: every level stores its intercepts in an sdsl::sd_vector with a select support, the construction that already exceeds 29 GB of SAT memory for one key in the Elias-Fano probe (C10), plus std::sort/std::round/long double slope merging on top; not attempted beyond the translation probe (needs llvm.fmuladd.f80, done), not claimed',
-    'C10': 'EliasFanoPGMIndex: attempted (units/eliasfano.cpp): the real sdsl::sd_vector / select_support_mcl code translates and the differential run agrees with the real build on 400/400 cases, but the SAT instance for a single key (n = 1) needs more than 29 GB (killed) - the select-support construction (4096-entry blocks) dominates; no verdict, not claimed',
+    'C08': 'CompressedPGMIndex: every level stores its intercepts in an sdsl::sd_vector with a select support, the construction that already exceeds 29 GB of SAT memory for one key in the Elias-Fano probe (C10), plus std::sort/std::round/long double slope merging on top; not attempted beyond the translation probe (needs llvm.fmuladd.f80, done) and the fixed-data probe of C10, which fails for the same reason; not claimed',
+    'C10': 'EliasFanoPGMIndex: attempted (units/eliasfano.cpp): the real sdsl::sd_vector / select_support_mcl code translates and the differential run agrees with the real build on 400/400 cases, but the SAT instance for a single key (n = 1) needs more than 29 GB (killed) - the select-support construction (4096-entry blocks) dominates. A second attempt on ONE concrete data set of 9 keys with only the query symbolic (jobs.py EF_FIXED_PROBE): 9 s and 1.2 GB while the loop bounds are small, but the select-support loops must be unwound in full even on concrete data and the run dies at 11.9 GB during bound refinement (14 GB cap); no verdict, not claimed',
     'C12': 'the property is about fstream, stat, open, mmap and bytes on disk: code behind I/O and libstdc++.so; modelling the file system would decide a property of the model',
     'C19': 'copy/move of the vector-only classes is the container model\'s own copy/move (libstdc++ container code is replaced by the model); the interesting case (CompressedLevel::sel1 pointing into the source) is sdsl code (C08)',
 }
